@@ -61,7 +61,17 @@ def run(ctx) -> None:
     # the liquid of an initially filled well is known by that well's component (and of no other well), and what is read out for a
     # transfer is the stored mixture without a tolerance
     ctx.reuse("C01.composition", c05.default_name)
+    from . import objmodel
+
+    ctx.guard("C01.labware-state", objmodel.labware_model, "C01.labware-state")
+    ctx.guard("C01.labware-state", objmodel.worklist_model, "C01.labware-state")
     ctx.reuse("C01.composition", c05.read_exact)
+    ctx.reuse("C01.composition", c05.comp_forwarding)
+    # "the file the robot executes": save() writes the records themselves
+    from . import c17
+
+    ctx.reuse("C01.file", c17.open_config)
+    ctx.reuse("C01.file", c17.strings)
 
 
 # ------------------------------------------------------------------------ aspirate / dispense
@@ -191,7 +201,9 @@ def numbering_hook(ctx, dev) -> None:
             devpkg = dev.module.name.rsplit(".", 1)[0]
             target = cal.func.qualname
             args = rets[0].args
-            ok = cal.func.module.name.startswith(devpkg) and len(args) == 2 and all(isinstance(a, ast.Name) for a in args) and [a.id for a in args] == f.params[1:3]
+            static = any((isinstance(d_, ast.Name) and d_.id == "staticmethod") for d_ in f.node.decorator_list)
+            own = f.params[0:2] if static else f.params[1:3]  # a @staticmethod hook has no `self`
+            ok = cal.func.module.name.startswith(devpkg) and len(args) == 2 and all(isinstance(a, ast.Name) for a in args) and [a.id for a in args] == own
     ctx.rep.check(ok, rule, f"{dev.name}._get_well_position", f"delegates to {target}",
                   f"{dev.name}._get_well_position is not a plain delegation to the device package's own get_well_position(labware, well) (resolved: {target or 'unresolved'})", where=f.where())
 
@@ -252,6 +264,8 @@ def pair_transfer(ctx, dev, rule: str = "C01.pair-transfer") -> None:
         names = [strip_norm(a) for a in pargs[:3]]
         want = ["source_wells", "destination_wells", "volumes"]
         ok2 = len(names) == 3 and all(isinstance(n, ast.Name) and n.id == w for n, w in zip(names, want))
+        if not ok2 and any(is_sym(x_, "comp") for n_ in pargs[:3] for x_ in ast.walk(n_)):
+            ok2 = None  # the arguments pass through a comprehension that was not expanded: unknown, not wrong
         ctx.rep.check(ok2, rule, f"{cbase}/partition-args", "partition_by_column(source_wells, destination_wells, volumes, ...)",
                       f"partition_by_column receives `{[show(n)[:30] for n in names]}`; expected the (normalised) source_wells, destination_wells, volumes in this order", where=f.where(A.call))
     ctx.rep.check(same(va, vd), rule, f"{cbase}/same-volume", "aspirate and dispense of a step move the same volume",
